@@ -60,12 +60,14 @@ def rule_reg(ctx):
             continue
         down, registered = snap[0]
         ent = registered.get("r1")
+        from ..layers import registry_entries
+        trip = registry_entries(("dict", {"r1": ent}))[:1] if ent is not None else []
         ctx.check("C08.reg", ent is not None, w, "registered before the send",
                   "the request is sent before (or without) being registered under its id: a fast reply finds no entry (registry at send time: %s)" % sorted(map(str, registered)),
                   "the registry holds the request's id when the stanza goes down")
         req = sim.reqs["r1"]
-        val_ok = ent is not None and ent[0] == "list" and len(ent[1]) == 3 and ent[1][0][0] == "obj" and ent[1][0][1] is req[1] \
-            and [x[0] == "closure" and "%r" % k in unparse(x[1]) for x, k in zip(ent[1][1:], ("ok", "err"))] == [True, True]
+        val_ok = bool(trip) and trip[0][0][0] == "obj" and trip[0][0][1] is req[1] \
+            and [x[0] == "closure" and "%r" % k in unparse(x[1]) for x, k in zip(trip[0][1:], ("ok", "err"))] == [True, True]
         ctx.check("C08.reg", bool(val_ok), w, "registry[id] = (request, success, error)",
                   "the entry must be keyed by the request's id and hold (request, success callback, error callback)", "keyed by request id; (request, success, error)")
         same = (down[0] == "obj" and down[1] is req[1]) or (down[0] == "node" and getattr(down[1], "made_by", (None, None))[0] is req[1])
@@ -237,7 +239,24 @@ def rule_cb(ctx):
                         elif isinstance(cb, ast.Constant) and cb.value is None:
                             continue
                         if target is None:
-                            ctx.undecided("C08.cb", w, cb, "callback could not be resolved")
+                            # fetched by name from a table (`ok, err = [getattr(self, n) for n in names]`): every method the
+                            # class's constant tables name must bind (reply, original request)
+                            dyn = isinstance(cb, ast.Name) and any(isinstance(x, ast.Call) and isinstance(x.func, ast.Name) and x.func.id == "getattr" for st in ast.walk(fn)
+                                                                   if isinstance(st, ast.Assign) and any(isinstance(t, ast.Name) and t.id == cb.id for tt in st.targets for t in ast.walk(tt)) for x in ast.walk(st.value))
+                            names = set()
+                            if dyn:
+                                for kk in repo.mro(c):
+                                    for ce in kk.consts.values():
+                                        for x in ast.walk(ce):
+                                            if isinstance(x, ast.Constant) and isinstance(x.value, str) and repo.find_method(c, x.value)[1] is not None:
+                                                names.add(x.value)
+                            if not names:
+                                ctx.undecided("C08.cb", w, cb, "callback could not be resolved")
+                                continue
+                            for nm in sorted(names):
+                                k_, tgt = repo.find_method(c, nm)
+                                probs = bind_problems(tgt, None, not func_is_static(tgt), extra_positional=2)
+                                ctx.check("C08.cb", not probs, w, "callback %s (from a table of names)" % nm, "registered callback cannot be called with (reply, original request): %s" % "; ".join(probs), "binds (reply, original request)")
                             continue
                         probs = bind_problems(target, None, implicit, extra_positional=2) if not isinstance(target, ast.Lambda) else \
                             ([] if len(target.args.args) == 2 or target.args.vararg else ["lambda takes %d parameter(s)" % len(target.args.args)])
@@ -495,6 +514,15 @@ def rule_owner(ctx):
         for c in m.classes.values():
             if not any(o in repo.mro(c) for o in owners):
                 continue
+            # the consuming side may be split into private helpers: everything processIqRegistry reaches through self calls
+            # (and nothing else calls) belongs to it
+            from .c12_order import reach_self_calls
+            consumers = set(reach_self_calls(repo, c, "processIqRegistry"))
+            for other, f2 in c.methods.items():
+                if other not in consumers:
+                    for x2 in ast.walk(f2):
+                        if isinstance(x2, ast.Call) and is_self_attr(x2.func) and x2.func.attr in consumers and x2.func.attr != "processIqRegistry":
+                            consumers.discard(x2.func.attr)
             for name, f in sorted(c.methods.items()):
                 # dropping what is pending when the connection is gone is not a correlation error: replies to those
                 # requests can no longer arrive
@@ -509,11 +537,11 @@ def rule_owner(ctx):
                         for t in (x.targets if isinstance(x, ast.Assign) else [x.target]):
                             if isinstance(t, ast.Attribute) and t.attr == "iqRegistry" and isinstance(t.value, ast.Name) and t.value.id == "self" and name != "__init__":
                                 bad = "rebinds the registry"
-                    elif isinstance(x, ast.Delete) and name != "processIqRegistry":
+                    elif isinstance(x, ast.Delete) and name != "processIqRegistry" and name not in consumers:
                         for t in x.targets:
                             if isinstance(t, ast.Subscript) and unparse(t.value) == "self.iqRegistry":
                                 bad = "deletes a registry entry"
-                    elif isinstance(x, ast.Call) and isinstance(x.func, ast.Attribute) and x.func.attr in ("clear", "pop", "popitem") and unparse(x.func.value) == "self.iqRegistry" and name != "processIqRegistry":
+                    elif isinstance(x, ast.Call) and isinstance(x.func, ast.Attribute) and x.func.attr in ("clear", "pop", "popitem") and unparse(x.func.value) == "self.iqRegistry" and name != "processIqRegistry" and name not in consumers:
                         bad = "removes registry entries"
                     if bad:
                         ctx.violate("C08.owner", where(m.relpath, "%s.%s" % (c.name, name), x.lineno), x,
